@@ -355,7 +355,7 @@ def step (w : World) (j : Json) : World × List String :=
     let sts := (jArr j "statuses").map fun s => ({ list := .raw (jStr s "url"), idx := atoi (jStr s "idx") } : StatusEntry)
     let c : Cred := { id := if jStr j "id" == "" then none else some (jStr j "id"), issuer := jStr j "issuer"
                       statuses := if sts.isEmpty then none else some sts }
-    let (v, w') := verifyFull env true w c (jStr j "kind" == "nutsorg")
+    let (v, w') := verifyFullF env true w c (jStr j "kind" == "nutsorg") (jBool j "storefault")
     (w', ["vverify " ++ verdictStr v])
   -- third harness (vcr, ambassador): a revocation event delivered by the network, with injected store faults
   | "areset" => ({ a := { base := bases[0]! }, b := { base := "https://verifier.example" } }, ["areset"])
